@@ -321,8 +321,12 @@ func (m *multiEngine) Replay(rf *ReplayFile) *RunOut {
 
 func engineFor(prop string) Engine {
 	switch prop {
-	case "C01", "C02", "C03", "C04", "C07", "C08", "C09", "C10", "C11", "C12", "C13", "C14", "C15", "C18":
+	case "C01", "C02", "C03", "C04", "C07", "C08", "C09", "C10", "C11", "C12", "C13":
 		return &containerEngine{}
+	case "C15", "C18":
+		return &multiEngine{parts: []Engine{&containerEngine{}, &containerEngine{}, &containerEngine{}, &inputsEngine{}}}
+	case "C14":
+		return &multiEngine{parts: []Engine{&containerEngine{}, &leakEngine{}}}
 	case "C05":
 		return &multiEngine{parts: []Engine{&containerEngine{}, &graphEngine{}}}
 	case "C19":
@@ -331,6 +335,8 @@ func engineFor(prop string) Engine {
 		return &collEngine{}
 	case "C20":
 		return &modEngine{}
+	case "C06":
+		return &multiEngine{parts: []Engine{&permEngine{}, &graphEngine{}}}
 	}
 	return nil
 }
